@@ -117,6 +117,14 @@ def build(run, cfg, future, B):
         # hold a, then hedge its first risk measure with b: the hedge notionals depend on the unit-risk rows of the current date only
         algos = [A.RunDaily(), A.SelectThese(['a']), A.WeighSpecified(a=0.5), A.Rebalance(), A.UpdateRisk('r1', history=1), A.UpdateRisk('r2', history=1),
                  A.SelectThese(['b']), A.HedgeRisks(['r1']), A.UpdateRisk('r1', history=1), A.UpdateRisk('r2', history=1)]
+    elif st == 'risk_hedge_gap':
+        # unit risks are not published for the hedge instrument (nor, on the cut date, for the held one) around the cut: the gap must not be bridged
+        # with later values
+        nanv = float('nan')
+        ur = {'r1': mkframe('ur1', cols, lambda i, c: nanv if ((c == 'b' and i in (cut - 1, cut)) or (c == 'a' and i == cut and cfg.get('lag', 0))) else {'a': 1.0, 'b': 2.0, 'c': 3.0}[c] + 0.25 * i, -5, 5)}
+        add['unit_risk'] = ur
+        algos = [A.RunDaily(), A.SelectThese(['a']), A.WeighSpecified(a=0.5), A.Rebalance(), A.UpdateRisk('r1', history=1),
+                 A.SelectThese(['b']), A.HedgeRisks(['r1'], throw_nan=False), A.UpdateRisk('r1', history=1)]
     elif st == 'nested':
         sub = B.Strategy('sub', [A.RunDaily(), A.SelectAll(), A.SelectMomentum(1, lookback=d2, lag=lag), A.WeighEqually(), A.Rebalance()], ['a', 'b'])
         children = [sub, 'c']
@@ -129,7 +137,8 @@ def build(run, cfg, future, B):
         algos = [A.RunDaily(), A.WeighSpecified(sub=0.625, b=0.25), A.Rebalance()]
     elif st == 'fixedincome':
         add['coupons'] = mkframe('cpn', ['a'], lambda i, c: 0.25 + 0.125 * (i % 2), -5, 5)
-        add['notl'] = pd.Series([1000.0 + 100 * i for i in range(len(dts))], index=dts)
+        nvals = [cell('notl', i, 'n', 1000.0 + 100 * i, 500, 5000) for i in range(len(dts))]
+        add['notl'] = pd.Series(nvals, index=dts, dtype=object if run.mode == 'sym' else float)
         children = [C.CouponPayingSecurity('a'), C.FixedIncomeSecurity('b'), C.HedgeSecurity('c')]
         algos = [A.RunDaily(), A.SelectThese(['a', 'b']), A.WeighSpecified(a=0.5, b=0.5), A.SetNotional('notl'), A.Rebalance()]
     else:
@@ -233,6 +242,12 @@ def h_lookahead(run, cfg):
             except Exception as e:
                 run.note('raised', repr(e)[:160])
                 run.end('raised')
+            except BaseException as e:
+                # bt turned a future cell into a machine float before the cut (e.g. a whole-column astype(float)): not expressible symbolically and not
+                # a leak by itself - this path's verdict is the two-futures comparison of the concrete replay
+                if type(e).__name__ == 'Unsupported' and 'float() of a symbolic real' in str(e):
+                    run.end('deferred-to-concrete')
+                raise
             if leaks:
                 run.fail('no-look-ahead', leaks[0])
             for k, v in hist.items():
@@ -317,7 +332,7 @@ HARNESSES = {'lookahead': h_lookahead}
 WITNESS_CAP = {'quick': 80, 'thorough': 300}
 
 STACKS = ['equal', 'momentum', 'hasdata_invvol', 'erc_meanvar', 'setstat_dense', 'setstat_sparse', 'weightarget_where', 'targetvol', 'weekly_monthly',
-          'risk_hedge', 'nested', 'nested_explicit', 'fixedincome']
+          'risk_hedge', 'risk_hedge_gap', 'nested', 'nested_explicit', 'fixedincome']
 
 
 def plan(tier):
@@ -326,7 +341,7 @@ def plan(tier):
     tasks = []
     for st in STACKS:
         for cut in (1, 2, 3, 4):
-            lags = (0, 1) if st in ('momentum', 'hasdata_invvol', 'setstat_dense', 'setstat_sparse', 'weekly_monthly', 'nested', 'targetvol', 'erc_meanvar') else (0,)
+            lags = (0, 1) if st in ('momentum', 'hasdata_invvol', 'setstat_dense', 'setstat_sparse', 'weekly_monthly', 'nested', 'targetvol', 'erc_meanvar', 'risk_hedge_gap') else (0,)
             for lag in lags:
                 cfg = dict(stack=st, cut=cut, lag=lag, int=0)
                 tasks.append(dict(harness='lookahead', cfg=cfg, opts=opts))
